@@ -6,6 +6,9 @@
 #include "drv.h"
 #include <setjmp.h>
 #include <unistd.h>
+#include <time.h>
+#include <poll.h>
+#include <sys/select.h>
 #include <librfn/fibre.h>
 #include <librfn/time.h>
 
@@ -15,6 +18,7 @@ static struct { uint32_t d, w; } script[200000];
 static long nscript, pos;
 static uint32_t it_t0, it_ret, it_t1, it_slept;
 static int it_calls, have_iter;
+static void slept_for(uint64_t us);
 
 static void flush_iter(void)
 {
@@ -23,7 +27,21 @@ static void flush_iter(void)
 	printf("{\"e\":\"Iter\",\"d\":%d,\"w\":%u,\"slept\":%u,\"calls\":%d}\n", (int32_t)(it_ret - it_t0), it_t1 - it_t0, it_slept, it_calls);
 	have_iter = 0;
 }
-uint32_t time_now(void) { return clk; }
+/* the clock and every way of sleeping a POSIX program has, all on the mock clock (the library's own time_posix.c is linked:
+ * time_now() reads clock_gettime) */
+int clock_gettime(clockid_t id, struct timespec *ts) { (void)id; ts->tv_sec = clk / 1000000u; ts->tv_nsec = (clk % 1000000u) * 1000L; return 0; }
+static void slept_for(uint64_t us) { it_slept += (uint32_t)us; it_calls++; clk += (uint32_t)us; }
+int nanosleep(const struct timespec *rq, struct timespec *rm) { (void)rm; slept_for((uint64_t)rq->tv_sec * 1000000u + (rq->tv_nsec + 999) / 1000); return 0; }
+int clock_nanosleep(clockid_t id, int flags, const struct timespec *rq, struct timespec *rm)
+{
+	(void)id; (void)rm;
+	uint64_t t = (uint64_t)rq->tv_sec * 1000000u + (rq->tv_nsec + 999) / 1000;
+	if (flags & TIMER_ABSTIME) { int32_t dlt = (int32_t)((uint32_t)t - clk); slept_for(dlt > 0 ? dlt : 0); } else slept_for(t);
+	return 0;
+}
+int select(int n, fd_set *r, fd_set *w, fd_set *e, struct timeval *tv) { (void)n; (void)r; (void)w; (void)e; if (tv) slept_for((uint64_t)tv->tv_sec * 1000000u + tv->tv_usec); return 0; }
+int poll(struct pollfd *f, nfds_t n, int ms) { (void)f; (void)n; if (ms > 0) slept_for((uint64_t)ms * 1000u); return 0; }
+unsigned int sleep(unsigned int s) { slept_for((uint64_t)s * 1000000u); return 0; }
 uint32_t fibre_scheduler_next(uint32_t t)
 {
 	flush_iter();
@@ -34,7 +52,7 @@ uint32_t fibre_scheduler_next(uint32_t t)
 	pos++;
 	return it_ret;
 }
-int usleep(useconds_t us) { it_slept += us; it_calls++; clk += us; return 0; }
+int usleep(useconds_t us) { slept_for(us); return 0; }
 
 int main(void)
 {
